@@ -77,6 +77,8 @@ def _batch(args):
         # wall-clock watchdog per plan (a hang inside repository code is caught by the step budget of C05; this
         # only guards the harness): the worker dies, which the engine reports as a harness error, never as a verdict
         faulthandler.dump_traceback_later(getattr(mod, "PLAN_WATCHDOG_S", 900), exit=True)
+        if os.environ.get("VERIF_TEST_KILL_RUN") == str(run):
+            os._exit(9)                 # self-test of the engine: a worker that dies abruptly
         plan = plan_for(mod, seed, tier, run)
         plan["_mode"] = mode
         t = time.time()
@@ -104,58 +106,80 @@ def engine(prop, seed, tier, mode, nruns, wall, workers, first_run=0):
     tasks = [(prop, seed, tier, list(range(i, min(i + batch, first_run + nruns))), mode)
              for i in range(first_run, first_run + nruns, batch)]
     ctx = multiprocessing.get_context("fork")
-    with cf.ProcessPoolExecutor(max_workers=workers, mp_context=ctx) as ex:
-        pending = {}
-        it = iter(tasks)
 
-        def submit_more():
-            while len(pending) < workers * 2:
-                if time.time() - t0 > wall:
-                    agg["wall_hit"] = True
-                    return
-                try:
-                    t = next(it)
-                except StopIteration:
-                    return
-                try:
-                    pending[ex.submit(_batch, t)] = t
-                except cf.process.BrokenProcessPool as e:
-                    agg["harness_errors"].append("worker pool broken (a worker died): %r" % (e,))
-                    agg["wall_hit"] = True
-                    return
-        submit_more()
-        while pending:
-            done, _ = cf.wait(list(pending), timeout=max(1.0, wall * 3 + 120 - (time.time() - t0)),
-                              return_when=cf.FIRST_COMPLETED)
-            if not done:
-                agg["harness_errors"].append("watchdog: workers made no progress")
-                for f in pending:
-                    f.cancel()
-                break
-            for f in done:
-                task = pending.pop(f)
-                try:
-                    results = f.result()
-                except BaseException as e:      # noqa  (dead worker etc.)
-                    agg["harness_errors"].append("worker failed on runs %s: %r" % (task[3], e))
-                    continue
-                for r in results:
-                    agg["runs"] += 1
-                    agg["evals"] += r["evals"]
-                    agg["events"] += r["events"]
-                    agg["stats"].update(r["stats"])
-                    agg["traces"].update(r["traces"])
-                    if r.get("harness_error"):
-                        agg["harness_errors"].append("run %d: %s" % (r["run"], r["harness_error"]))
-                    for v in r["violations"]:
-                        if len(agg["violations"]) < 400 or v["key"] not in known_keys:
-                            agg["violations"].append({"run": r["run"], "violation": v, "plan": r["plan"]})
-                    if "plan_sample" in r and len(agg["samples"]) < 3:
-                        agg["samples"].append(r.get("sample") or r["plan_sample"])
-            # stop early once plenty of violations are collected (listed known findings do not count, so that they
-            # cannot starve the search for anything else)
-            if sum(1 for v in agg["violations"] if v["violation"]["key"] not in known_keys) < 50:
-                submit_more()
+    def absorb(results):
+        for r in results:
+            agg["runs"] += 1
+            agg["evals"] += r["evals"]
+            agg["events"] += r["events"]
+            agg["stats"].update(r["stats"])
+            agg["traces"].update(r["traces"])
+            if r.get("harness_error"):
+                agg["harness_errors"].append("run %d: %s" % (r["run"], r["harness_error"]))
+            for v in r["violations"]:
+                if len(agg["violations"]) < 400 or v["key"] not in known_keys:
+                    agg["violations"].append({"run": r["run"], "violation": v, "plan": r["plan"]})
+            if "plan_sample" in r and len(agg["samples"]) < 3:
+                agg["samples"].append(r.get("sample") or r["plan_sample"])
+
+    def pool_pass(task_list, final):
+        """run tasks in one pool; returns the tasks that were lost because a worker process died"""
+        lost = []
+        with cf.ProcessPoolExecutor(max_workers=workers, mp_context=ctx) as ex:
+            pending = {}
+            it = iter(task_list)
+            broken = [False]
+
+            def submit_more():
+                while len(pending) < workers * 2 and not broken[0]:
+                    if time.time() - t0 > wall and not final:
+                        agg["wall_hit"] = True
+                        return
+                    try:
+                        t = next(it)
+                    except StopIteration:
+                        return
+                    try:
+                        pending[ex.submit(_batch, t)] = t
+                    except cf.process.BrokenProcessPool:
+                        broken[0] = True
+                        lost.append(t)
+            submit_more()
+            while pending:
+                done, _ = cf.wait(list(pending), timeout=max(1.0, wall * 3 + 120 - (time.time() - t0)),
+                                  return_when=cf.FIRST_COMPLETED)
+                if not done:
+                    agg["harness_errors"].append("watchdog: workers made no progress")
+                    for f in pending:
+                        f.cancel()
+                    break
+                for f in done:
+                    task = pending.pop(f)
+                    try:
+                        absorb(f.result())
+                    except cf.process.BrokenProcessPool:
+                        broken[0] = True
+                        lost.append(task)
+                    except BaseException as e:      # noqa
+                        agg["harness_errors"].append("worker failed on runs %s: %r" % (task[3], e))
+                # stop early once plenty of violations are collected (listed known findings do not count, so that
+                # they cannot starve the search for anything else)
+                if sum(1 for v in agg["violations"] if v["violation"]["key"] not in known_keys) < 50:
+                    submit_more()
+            if broken[0]:
+                lost.extend(it)          # never submitted
+        return lost
+
+    lost = pool_pass(tasks, False)
+    if lost:
+        # a worker process died (watchdog, out of memory ...): every plan that was in flight or queued is run again,
+        # one plan per task, so that only the plan that really kills its worker is reported
+        singles = [(t[0], t[1], t[2], [r], t[4]) for t in lost for r in t[3]]
+        if time.time() - t0 > wall:
+            singles = singles[:workers * 4]
+        still = pool_pass(singles, True)
+        for t in still:
+            agg["harness_errors"].append("worker died on run %s (twice)" % t[3])
     agg["stats"] = dict(agg["stats"])
     agg["traces"] = sorted(agg["traces"])
     agg["wall_s"] = time.time() - t0
